@@ -28,6 +28,7 @@ func main() {
 	}
 	waitOverlap := suiteOverlapStart() // shard processes, run next to the sequential suite
 	exhaustive := suiteSequential()
+	exhaustive = suiteEvents() && exhaustive // sequences of policy notifications (events.go)
 	exhaustive = waitOverlap() && exhaustive
 	os.Exit(r.Finish(exhaustive))
 }
